@@ -83,17 +83,19 @@ def _get(lib, kind, key="title"):
 def o_strip_reuse(inp):
     """inp: {"value": v, "kind": "field"|"string", "inplace": bool}: sub-checks 1 (strip) and 2 (reuse restores)."""
     v, kind = inp["value"], inp["kind"]
-    cls = value_classes(v) + [kind]
+    key = inp.get("key", "title")
+    cls = value_classes(v) + [kind] + (["key-with-upper-case"] if key != key.lower() else [])
     nontrivial = any(c.startswith("enclosed:{") or c.startswith('enclosed:"') or c in ("nested", "concatenation", "empty", "single-char") for c in cls)
-    lib = _lib(v, kind)
+    lib = _lib(v, kind, key)
     rem = RemoveEnclosingMiddleware(allow_inplace_modification=inp["inplace"]).transform(lib)
     want, wkind = strip1(v)
-    got = _get(rem, kind)
+    got = _get(rem, kind, key)
     if got != want:
         return (("strip:content", f"{v!r} -> {got!r}", repr(want)), nontrivial, cls)
     b = rem.blocks[0]
     meta = b.parser_metadata.get("removed_enclosing")
-    gkind = meta if kind == "string" else (meta or {}).get("title")
+    # the statement says the kind is recorded, not under which spelling of the key
+    gkind = meta if kind == "string" else (meta or {}).get(key, (meta or {}).get(key.lower()))
     if gkind != wkind:
         return (("strip:recorded-kind", f"{v!r}: {meta!r}", repr(wkind)), nontrivial, cls)
     if kind == "field":
@@ -104,8 +106,8 @@ def o_strip_reuse(inp):
             continue
         add = AddEnclosingMiddleware(reuse_previous_enclosing=True, enclose_integers=e, default_enclosing=d, allow_inplace_modification=False)
         back = add.transform(rem)
-        if _get(back, kind) != v.strip():
-            return (("reuse:not-restored", f"{v!r} -> {got!r} -> {_get(back, kind)!r} (default {d!r}, enclose_integers={e})", repr(v.strip())), nontrivial, cls)
+        if _get(back, kind, key) != v.strip():
+            return (("reuse:not-restored", f"{key} = {v!r} -> {got!r} -> {_get(back, kind, key)!r} (default {d!r}, enclose_integers={e})", repr(v.strip())), nontrivial, cls)
     return (None, nontrivial, cls)
 
 
@@ -190,6 +192,9 @@ def splitter_values(frame, L, prefix):
 def w_frame_values(acc, frame, L, prefix):
     for v, kind in splitter_values(frame, L, prefix):
         acc.run("strip_reuse", o_strip_reuse, {"value": v, "kind": kind, "inplace": True}, False)
+        if kind == "field":
+            for key in ("Title", "year", "Month"):
+                acc.run("strip_reuse", o_strip_reuse, {"value": v, "kind": kind, "inplace": False, "key": key}, False)
         c = strip1(v)[0]
         for d in ("{", '"'):
             acc.run("reparse", o_reparse, {"content": c, "default": d}, False)
@@ -210,7 +215,8 @@ def w_random(acc, n, seed):
     from hypothesis import strategies as st
 
     vals = st.lists(st.integers(0, 255), min_size=4, max_size=80).map(lambda ints: bibgen.gen_value(bibgen.Src(ints), 4))
-    sr = st.fixed_dictionaries({"value": vals, "kind": st.sampled_from(["field", "string"]), "inplace": st.booleans()})
+    sr = st.fixed_dictionaries({"value": vals, "kind": st.sampled_from(["field", "string"]), "inplace": st.booleans(),
+                                "key": st.sampled_from(["title", "Title", "year", "Month", "x-Y", "NOTE"])})
     harness.run_hyp(acc, "strip_reuse", o_strip_reuse, sr, n, seed)
     content = st.one_of(vals.map(lambda v: strip1(v)[0]), vals, st.text(alphabet="ab {}\"\\,=#\n@é", max_size=10).map(bibgen.fix_openers))
     rp = st.fixed_dictionaries({"content": content, "default": st.sampled_from(["{", '"'])})
@@ -244,4 +250,4 @@ def run(chk):
         "other keys x all options, no exception. Non-trivial: the value is enclosed, nested, a concatenation, empty, a "
         "single character, in the re-parse domain, or an integer."
     )
-    chk.required_classes = ["enclosed:{", 'enclosed:"', "enclosed:no-enclosing", "nested", "concatenation", "single-char", "string", "field", "reparse:{", 'reparse:"', "intrule", "int-value"]
+    chk.required_classes = ["key-with-upper-case", "enclosed:{", 'enclosed:"', "enclosed:no-enclosing", "nested", "concatenation", "single-char", "string", "field", "reparse:{", 'reparse:"', "intrule", "int-value"]
